@@ -33,7 +33,7 @@ def PW(k):
 '''
 
 # kind -> (source lines, stdout, repr of value or None, is expression statement, trace items)
-KINDS = ['P', 'A', 'V', 'PP', 'VS', 'VE', 'VO', 'VN', 'PV', 'N', 'VR', 'S', 'X', 'W', 'I', 'PVC', 'PVQ', 'AV', 'APV']
+KINDS = ['P', 'A', 'V', 'PP', 'VS', 'VE', 'VO', 'VN', 'PV', 'N', 'VR', 'S', 'X', 'W', 'I', 'PVC', 'PVQ', 'AV', 'APV', 'SP']
 
 
 def kind_info(kd, k):
@@ -55,6 +55,9 @@ def kind_info(kd, k):
         return ['>>> T(%d)' % k], '', None, True, [k]
     if kd == 'PV':
         return ['>>> PV(%d)' % k], 'p%d\n' % k, repr(k * 11), True, [k]
+    if kd == 'SP':
+        # two statements on one prompt line, the second one printing (a real ';' separator)
+        return ['>>> v%d = T(%d); P(%d)' % (k, k, k)], 'p%d\n' % k, None, False, [k, k]
     if kd == 'AV':
         # top-level await of a coroutine that returns a value (no output)
         return ['>>> await AV(%d)' % k], '', repr(k * 11), True, [k]
@@ -84,7 +87,7 @@ def kind_info(kd, k):
     raise KeyError(kd)
 
 
-OUTLINES = {'P': 1, 'PP': 2, 'PV': 1, 'X': 1, 'I': 1, 'PVC': 1, 'PVQ': 1, 'APV': 1}
+OUTLINES = {'P': 1, 'PP': 2, 'PV': 1, 'X': 1, 'I': 1, 'PVC': 1, 'PVQ': 1, 'APV': 1, 'SP': 1}
 HASVAL = {'V', 'VS', 'VE', 'VO', 'PV', 'PVC', 'PVQ', 'AV', 'APV'}
 EXPRS = {'P', 'V', 'VS', 'VE', 'VO', 'VN', 'PV', 'PVC', 'PVQ', 'AV', 'APV'}
 NOCODE = {'N', 'S'}
